@@ -3,7 +3,7 @@ EXTENDS Liveness, TraceLib
 VARIABLE l
 IsEvent(e) == l <= NRec /\ Rec[l].ev = e /\ l' = l + 1
 TInit == LInit /\ l = 1
-ModeOf(sc) == IF sc.family \in {"heal", "clean", "tiny", "lossy", "trickle", "credit_loss"} THEN "heal" ELSE IF sc.family = "blackhole" THEN "dead" ELSE "free"
+ModeOf(sc) == IF sc.family \in {"heal", "clean", "tiny", "lossy", "trickle", "credit_loss", "enum"} THEN "heal" ELSE IF sc.family = "blackhole" THEN "dead" ELSE "free"
 HealOf(sc) == IF "heal_at_us" \in DOMAIN sc.net THEN sc.net.heal_at_us ELSE 0
 T_Reset == IsEvent("reset") /\ LET sc == Rec[l].sc IN Set(LFresh(ModeOf(sc), Min2(sc.c.idle_ms, sc.s.idle_ms) * 1000, HealOf(sc)))
 T_RxP == IsEvent("rxp") /\ Rx(Rec[l].ep, Rec[l].t)
